@@ -928,6 +928,15 @@ def main(argv):
         log(__doc__)
         return 2
     seed = int(os.environ.get("VERIF_SEED", "1"))
+    # One run at a time per copy of /verif: the shadow manifests, the scratch build directories and the scratch
+    # evidence directory are shared, so two invocations against different trees (VERIF_REPO) must not overlap.
+    # A second invocation waits; invocations started by this one (selfcheck runs checks) inherit the lock.
+    if os.environ.get("VERIF_LOCK_HELD") != "1":
+        import fcntl
+        lock = open(os.path.join(HERE, ".run.lock"), "w")
+        fcntl.flock(lock, fcntl.LOCK_EX)
+        os.environ["VERIF_LOCK_HELD"] = "1"
+        globals()["_RUN_LOCK"] = lock
     try:
         if argv[1] == "setup":
             return cmd_setup()
